@@ -13,7 +13,24 @@
    value = prefix encoding: n | t | f | i <int> | x | s <len> <scalars> |
            a <n> values | o <n> (<len> <scalars> value)*
    SUBST blocks: the set of scalars accepted by the real code when substituted
-   into a row / repeat name, compared with the model over the same scalars. *)
+   into a row / repeat name, compared with the model over the same scalars.
+
+   The JSON text layer (JsonText.v), DIFF class=TEXT:
+     P text   (in a CASE) the bytes serde_json::to_string_pretty wrote for the
+              input Value: equal to print_pretty (when the value is printable
+              in the model, i.e. holds no float / u64 above i64::MAX), and
+              parse_text of these bytes is the Value again
+     PL text  (in a CASE, accepted layouts) the bytes of the file written with
+              to_writer_pretty: equal to save_text of the layout, and load_text
+              of these bytes is what the real load_layout_from_file answered
+     TCASE id kind / X hex-bytes / V OK value + VP text + VC text | V ERR / [A note] /
+              [LF OK n + M lines | LF ERR kind | LF PANIC] / END
+              a generated JSON text: the real serde_json readers' outcome
+              against parse_text (both Err, or equal Values); VP / VC: what
+              to_string_pretty / to_string write for the Value read, against
+              print_pretty / print_compact (printable values); LF: the real
+              load_layout_from_file on a file with these bytes against load_text
+   P and PL texts are one line: newline as \n, backslash as \\. *)
 
 open Model
 
@@ -55,6 +72,56 @@ let z_of_int (i : int) : z =
   if i = 0 then Z0 else if i > 0 then Zpos (pos_of_int i) else Zneg (pos_of_int (- i))
 
 let int_of_z (x : z) : int = match x with Z0 -> 0 | Zpos p -> int_of_pos p | Zneg p -> - (int_of_pos p)
+
+(* ---------- bytes ---------- *)
+
+let byte_table : n array = Array.init 256 n_of_int
+
+let nlist_of_string (s : string) : n list =
+  let r = ref [] in
+  for i = String.length s - 1 downto 0 do r := byte_table.(Char.code s.[i]) :: !r done; !r
+
+let string_of_nlist (l : n list) : string =
+  let b = Buffer.create 1024 in
+  List.iter (fun x -> let i = int_of_n x in Buffer.add_char b (Char.chr (i land 255))) l;
+  Buffer.contents b
+
+(* the one-line form of P / PL lines *)
+let unesc_line (s : string) : string =
+  let b = Buffer.create (String.length s) in
+  let i = ref 0 and n = String.length s in
+  while !i < n do
+    (if s.[!i] = '\\' && !i + 1 < n then begin
+       (match s.[!i + 1] with 'n' -> Buffer.add_char b '\n' | 'r' -> Buffer.add_char b '\r' | c -> Buffer.add_char b c);
+       incr i
+     end else Buffer.add_char b s.[!i]);
+    incr i
+  done;
+  Buffer.contents b
+
+let unhex (s : string) : string =
+  let v c = match c with '0'..'9' -> Char.code c - 48 | 'a'..'f' -> Char.code c - 87 | _ -> 0 in
+  String.init (String.length s / 2) (fun i -> Char.chr (v s.[2 * i] * 16 + v s.[2 * i + 1]))
+
+(* a byte string on one line, for reports *)
+let show_bytes (s : string) : string =
+  let b = Buffer.create (String.length s) in
+  String.iter (fun c ->
+    let k = Char.code c in
+    if c = '\\' then Buffer.add_string b "\\\\"
+    else if k >= 32 && k < 127 then Buffer.add_char b c
+    else if c = '\n' then Buffer.add_string b "\\n"
+    else Buffer.add_string b (Printf.sprintf "\\x%02x" k)) s;
+  let r = Buffer.contents b in
+  if String.length r > 1500 then String.sub r 0 1500 ^ "..." else r
+
+(* where two byte strings part *)
+let first_diff (a : string) (b : string) : string =
+  let n = min (String.length a) (String.length b) in
+  let i = ref 0 in
+  while !i < n && a.[!i] = b.[!i] do incr i done;
+  let ctx s = show_bytes (String.sub s (max 0 (!i - 20)) (min (String.length s - max 0 (!i - 20)) 60)) in
+  Printf.sprintf "lengths %d/%d, first difference at byte %d: real ...%s... model ...%s..." (String.length a) (String.length b) !i (ctx a) (ctx b)
 
 let split_ws (s : string) : string array =
   Array.of_list (List.filter (fun x -> x <> "") (String.split_on_char ' ' s))
@@ -139,11 +206,12 @@ type case = {
   s : json option;
   r2 : mapping list res option;
   x : string list; w : string list;
+  ptext : string option; pltext : string option;
 }
 
 let cases = ref 0 and distinct = Hashtbl.create 4096 and nontrivial = ref 0
 and load_cmp = ref 0 and serde_cmp = ref 0 and checker_runs = ref 0 and diffs = ref 0 and hits = ref 0
-and subst_cmp = ref 0
+and subst_cmp = ref 0 and text_print_cmp = ref 0 and text_parse_cmp = ref 0 and text_load_cmp = ref 0 and text_cases = ref 0
 
 let one_line (s : string) = String.map (fun c -> if c = '\n' then ' ' else c) s
 
@@ -191,6 +259,34 @@ let check_case (c : case) : unit =
              in-memory reload (which the model is compared with): the saved layout does not reload as saved *)
           report_hit c "C15.roundtrip" w "load_layout_from_file(saved file) = parse_layout_from_json + convert (to_value)"
         else report_diff c "SERDE" w "to_writer_pretty + from_str = to_value") c.w;
+    (* the text layer: serde_json's pretty printer and reader on the input Value *)
+    (match c.ptext with
+     | Some p ->
+       if x_printable j then begin
+         incr text_print_cmp;
+         let m = string_of_nlist (x_print_pretty j) in
+         if m <> p then report_diff c "TEXT" ("to_string_pretty(value): " ^ first_diff p m) "print_pretty differs"
+       end;
+       incr text_parse_cmp;
+       (match x_parse_text (nlist_of_string p) with
+        | Some j' -> if not (x_json_eqb j' j) then report_diff c "TEXT" "from_str(to_string_pretty(value)) = value" "parse_text gives another value"
+        | None -> report_diff c "TEXT" "from_str(to_string_pretty(value)) = value" "parse_text rejects the text")
+     | None -> ());
+    (* ... and the saved layout file: its bytes, and the reload from these bytes *)
+    (match c.pltext, real with
+     | Some p, Ok l ->
+       incr text_print_cmp;
+       let m = string_of_nlist (x_save_text l) in
+       if m <> p then report_diff c "TEXT" ("saved file (to_writer_pretty(layout)): " ^ first_diff p m) "save_text differs";
+       let file_differs = List.exists (fun w -> String.length w >= 21 && String.sub w 0 21 = "load_layout_from_file") c.w in
+       (match c.r2 with
+        | Some r2 when not file_differs ->
+          incr text_load_cmp;
+          let ml = x_load_text (nlist_of_string p) in
+          if not (x_outcome_eqb ml r2) then begin
+            let (a, b) = diff_str r2 ml in report_diff c "TEXT" ("load_layout_from_file(saved file): " ^ a) ("load_text: " ^ b) end
+        | _ -> ())
+     | _, _ -> ());
     (* C15 on a basic layout serialised by the real serde impl *)
     (match c.basic with
      | Some l0 ->
@@ -219,6 +315,48 @@ let check_case (c : case) : unit =
         | _, _ -> ())
      | _ -> ())
   | _, _ -> Printf.printf "CHECKER-FAILED incomplete case %d\n" c.id
+
+(* ---------- text cases ---------- *)
+
+type tcase = { tid : int; tkind : string; bytes : string; v : json option option; notes : string list; lf : mapping list res option;
+               vp : string option; vc : string option }
+
+let check_tcase (t : tcase) : unit =
+  incr text_cases;
+  let c = { id = t.tid; kind = t.tkind; text = show_bytes t.bytes; j = None; basic = None; r = None; s = None; r2 = None; x = []; w = [];
+            ptext = None; pltext = None } in
+  List.iter (fun a -> report_diff c "TEXT" a "the real readers of serde_json agree with each other") t.notes;
+  let input = nlist_of_string t.bytes in
+  (match t.v with
+   | None -> Printf.printf "CHECKER-FAILED incomplete text case %d\n" t.tid
+   | Some real ->
+     incr text_parse_cmp;
+     let m = x_parse_text input in
+     (match real, m with
+      | None, None -> ()
+      | Some a, Some b ->
+        if not (x_json_eqb a b) then report_diff c "TEXT" "serde_json: Ok(value)" "parse_text: another value";
+        (* the real printers on the Value just read, against the model's printers *)
+        if x_printable a then begin
+          (match t.vp with
+           | Some p -> incr text_print_cmp; let m = string_of_nlist (x_print_pretty a) in
+             if m <> p then report_diff c "TEXT" ("to_string_pretty(value read): " ^ first_diff p m) "print_pretty differs"
+           | None -> ());
+          (match t.vc with
+           | Some p -> incr text_print_cmp; let m = string_of_nlist (x_print_compact a) in
+             if m <> p then report_diff c "TEXT" ("to_string(value read): " ^ first_diff p m) "print_compact differs"
+           | None -> ())
+        end
+      | Some _, None -> report_diff c "TEXT" "serde_json: Ok" "parse_text: error"
+      | None, Some _ -> report_diff c "TEXT" "serde_json: Err" "parse_text: a value"));
+  (match t.lf with
+   | Some real ->
+     incr text_load_cmp;
+     let ml = x_load_text input in
+     if not (x_outcome_eqb ml real) then begin
+       let (a, b) = diff_str real ml in report_diff c "TEXT" ("load_layout_from_file: " ^ a) ("load_text: " ^ b) end;
+     (match real with Panic _ -> report_hit c "C14.panic" "panic in load_layout_from_file" "Ok or Err" | _ -> ())
+   | None -> ())
 
 (* ---------- substitution blocks ---------- *)
 
@@ -270,12 +408,30 @@ let read_outcome (ic : in_channel) (t : string array) : mapping list res =
 let process (path : string) =
   let ic = open_in path in
   let cur = ref None in
+  let tcur = ref None in
   (try
      while true do
        let l = input_line ic in
        if starts l "CASE " then begin
          let t = split_ws l in
-         cur := Some { id = int_of_string t.(1); kind = t.(2); text = ""; j = None; basic = None; r = None; s = None; r2 = None; x = []; w = [] }
+         cur := Some { id = int_of_string t.(1); kind = t.(2); text = ""; j = None; basic = None; r = None; s = None; r2 = None; x = []; w = [];
+                       ptext = None; pltext = None }
+       end else if starts l "TCASE " then begin
+         let t = split_ws l in
+         tcur := Some { tid = int_of_string t.(1); tkind = t.(2); bytes = ""; v = None; notes = []; lf = None; vp = None; vc = None }
+       end else if !tcur <> None then begin
+         match !tcur with
+         | None -> ()
+         | Some t ->
+           if starts l "X " then tcur := Some { t with bytes = unhex (String.sub l 2 (String.length l - 2)) }
+           else if l = "X" then ()
+           else if starts l "V OK" then tcur := Some { t with v = Some (Some (parse_value (split_ws l) 2)) }
+           else if starts l "V ERR" then tcur := Some { t with v = Some None }
+           else if starts l "VP " then tcur := Some { t with vp = Some (unesc_line (String.sub l 3 (String.length l - 3))) }
+           else if starts l "VC " then tcur := Some { t with vc = Some (unesc_line (String.sub l 3 (String.length l - 3))) }
+           else if starts l "A " then tcur := Some { t with notes = t.notes @ [String.sub l 2 (String.length l - 2)] }
+           else if starts l "LF " then tcur := Some { t with lf = Some (read_outcome ic (split_ws l)) }
+           else if l = "END" then begin check_tcase t; tcur := None end
        end else if starts l "SUBST " then begin
          let t = split_ws l in
          let kind = t.(1) and pos = int_of_string t.(2) in
@@ -298,6 +454,8 @@ let process (path : string) =
            if starts l "T " then cur := Some { c with text = String.sub l 2 (String.length l - 2) }
            else if starts l "J " then cur := Some { c with j = Some (parse_value (split_ws l) 1) }
            else if starts l "S " then cur := Some { c with s = Some (parse_value (split_ws l) 1) }
+           else if starts l "P " then cur := Some { c with ptext = Some (unesc_line (String.sub l 2 (String.length l - 2))) }
+           else if starts l "PL " then cur := Some { c with pltext = Some (unesc_line (String.sub l 3 (String.length l - 3))) }
            else if starts l "B " then begin
              let n = int_of_string (split_ws l).(1) in
              cur := Some { c with basic = Some (List.init n (fun _ -> parse_mapping (split_ws (input_line ic)))) }
@@ -313,5 +471,5 @@ let process (path : string) =
 
 let () =
   for i = 1 to Array.length Sys.argv - 1 do process Sys.argv.(i) done;
-  Printf.printf "SUMMARY cases=%d distinct=%d distinct_nontrivial=%d load_compared=%d serde_compared=%d checker_runs=%d subst_compared=%d diffs=%d hits=%d\n"
-    !cases (Hashtbl.length distinct) !nontrivial !load_cmp !serde_cmp !checker_runs !subst_cmp !diffs !hits
+  Printf.printf "SUMMARY cases=%d distinct=%d distinct_nontrivial=%d load_compared=%d serde_compared=%d checker_runs=%d subst_compared=%d text_cases=%d text_printed_compared=%d text_parsed_compared=%d text_loads_compared=%d diffs=%d hits=%d\n"
+    !cases (Hashtbl.length distinct) !nontrivial !load_cmp !serde_cmp !checker_runs !subst_cmp !text_cases !text_print_cmp !text_parse_cmp !text_load_cmp !diffs !hits
